@@ -39,6 +39,8 @@ pub struct NetOpts {
     pub allow_adjacent_double: bool,
     /// (probability, lo, hi): a share of segments much shorter than one step of travel
     pub short_links: Option<(f64, f64, f64)>,
+    /// probability of a 'staircase' set: abutting short zones of decreasing speed ending in a long slow zone
+    pub p_staircase: f64,
 }
 
 impl NetOpts {
@@ -63,6 +65,7 @@ impl NetOpts {
             v_min: 2.0,
             allow_adjacent_double: false,
             short_links: None,
+            p_staircase: 0.0,
         }
     }
 }
@@ -107,6 +110,29 @@ pub fn speed_param(rng: &mut Rng) -> SpeedParam {
 
 /// restrictions with controlled pairwise relations; returned sorted and with unique (start,end) pairs
 pub fn restrictions(rng: &mut Rng, len: f64, o: &NetOpts, flags: &mut Vec<&'static str>) -> Vec<SpeedLimit> {
+    if o.p_staircase > 0.0 && len > 800.0 && rng.chance(o.p_staircase) {
+        // abutting short steps down (each shorter than the braking distance between them), then a long slow zone
+        let ex = o.exact_offsets;
+        let mut v = vec![];
+        let mut x = q(rng.range(0.1, 0.6) * len, ex);
+        let mut sp = *rng.pick(&[22.35, 17.9, 16.0]);
+        let steps = rng.usize(2, 4);
+        for _ in 0..steps {
+            let w = q(rng.range(25.0, 160.0), ex).max(1.0);
+            if x + w >= len - 50.0 {
+                break;
+            }
+            v.push(SpeedLimit { offset_start: uc::M * x, offset_end: uc::M * (x + w), speed: uc::MPS * sp });
+            x += w;
+            sp = (sp - rng.range(2.5, 6.0)).max(o.v_min + 1.0);
+        }
+        let sp_last = (sp - rng.range(2.0, 6.0)).max(o.v_min);
+        v.push(SpeedLimit { offset_start: uc::M * x, offset_end: uc::M * len, speed: uc::MPS * sp_last });
+        if !flags.contains(&"staircase") {
+            flags.push("staircase");
+        }
+        return v;
+    }
     let n = rng.usize(1, o.max_restrictions.max(1));
     let mut v: Vec<(f64, f64, f64)> = vec![];
     let ex = o.exact_offsets;
